@@ -106,7 +106,7 @@ class C05(OutstationProp):
         for op, t, lines in steps:
             step_tx = [b for (_, _, b) in txs(lines)]
             step_sol = [b for b in step_tx if len(b) >= 2 and b[1] == 129]
-            if op[0] == "disconnect":
+            if op[0] in ("disconnect", "bounce"):
                 prev = None; waiting = False
             if op[0] == "rx":
                 frm, bc = int(op[1]), op[2]
